@@ -50,6 +50,27 @@ def tainted_params(ana) -> Dict[str, Set[str]]:
                     try:
                         ba = bind_args(callee, cs.node, skip_self=cs.callee.kind == "method_internal")
                     except AnalysisError:
+                        # argument packs: the positional prefix binds as usual; a pack that may carry a hyper-parameter may hand it to
+                        # any later parameter (over-approximation: never blind)
+                        params = [p_ for p_ in callee.own_params if not (cs.callee.kind == "method_internal" and p_ in ("self", "cls"))]
+                        pairs_, k_ = [], 0
+                        for a_ in cs.node.args:
+                            if isinstance(a_, ast.Starred):
+                                pairs_ += [(p_, a_.value) for p_ in params[k_:]]
+                                break
+                            if k_ < len(params):
+                                pairs_.append((params[k_], a_))
+                            k_ += 1
+                        for kw_ in cs.node.keywords:
+                            pairs_ += [(kw_.arg, kw_.value)] if kw_.arg else [(p_, kw_.value) for p_ in params]
+                        ba = dict()
+                        pairs = pairs_
+                        for p, a in pairs:
+                            if is_tainted(ana, fi, a, taint):
+                                s_ = taint.setdefault(callee.qualname, set())
+                                if p not in s_:
+                                    s_.add(p)
+                                    changed = True
                         continue
                     pairs = list(ba.items())
                 for p, a in pairs:
